@@ -1423,7 +1423,7 @@ emitdata(struct decl *d, struct init *init)
 	struct init *cur;
 	struct type *t;
 	unsigned long long offset = 0, start, end, bits = 0;
-	size_t i;
+	size_t i, w;
 	int align;
 
 	align = d->u.obj.align;
@@ -1448,6 +1448,13 @@ emitdata(struct decl *d, struct init *init)
 			assert(cur->expr->kind == EXPRSTRING);
 			assert(init->expr->kind == EXPRCONST);
 			i = (init->start - cur->start) / cur->expr->type->base->size;
+			if (i >= cur->expr->u.string.size) {
+				/* the literal is shorter than the array; extend it with zeros up to this element */
+				w = cur->expr->type->base->size;
+				cur->expr->u.string.data = xreallocarray(cur->expr->u.string.data, i + 1, w);
+				memset((char *)cur->expr->u.string.data + cur->expr->u.string.size * w, 0, (i + 1 - cur->expr->u.string.size) * w);
+				cur->expr->u.string.size = i + 1;
+			}
 			switch (cur->expr->type->base->size) {
 			case 1: ((unsigned char *)cur->expr->u.string.data)[i]  = init->expr->u.constant.u; break;
 			case 2: ((uint_least16_t *)cur->expr->u.string.data)[i] = init->expr->u.constant.u; break;
